@@ -273,10 +273,15 @@ where
             // If not set on the first (or only) transfer for a (multi-transfer)
             // delivery, then the settled flag MUST be interpreted as being false.
             false => {
-                let (tx, rx) = oneshot::channel();
-                let unsettled = UnsettledMessage::new(payload_copy, None, message_format, tx);
+                let (mut tx, rx) = oneshot::channel();
                 {
                     let mut guard = self.unsettled.write();
+                    // The session may have stopped (and woken the waiters it knew of)
+                    // after it took the transfer
+                    if self.session_stop_reason.get().is_some() {
+                        tx = oneshot::channel().0;
+                    }
+                    let unsettled = UnsettledMessage::new(payload_copy, None, message_format, tx);
                     guard
                         .get_or_insert(OrderedMap::new())
                         .insert(delivery_tag.clone(), unsettled);
